@@ -28,6 +28,9 @@ def run(tier, seed):
     rep.rule('LOOP.consumes', 'a loop controlled by a stream state extracts from that stream (or leaves) on every path of its body')
     rep.rule('ARGV.bounds', 'the command-line parser never subscripts the argument vector without a bound (operator[] only '
              'with the loop index itself; value fetches use the checked at())')
+    rep.rule('BOUNDS', 'the cumulative-table loader establishes, or refuses the file, the container sizes the inverse-transform sampler '
+             'subscripts rely on: energies.size() = nsamples, e1_cprobs.size() = nsamples, nsamples rows in e2_cprobs, row k of size '
+             'nsamples - k (a truncated or over-long dataset must raise at load time, not index out of bounds at sampling time)')
     rep.rule('NOEXIT', 'no exit/abort/terminate call in the library or the programs: exceptions are the only error channel')
     fns = loader_functions(prog)
     rep.analysed['functions with stream extraction'] = [f['qn'] for f in fns]
@@ -139,6 +142,7 @@ def run(tier, seed):
     rep.add('NOEXIT', 'all', 'bxdecay0/', '%d functions: no exit/abort/terminate call' % len(prog.functions), not bad, bad or None)
     rep.assumptions += ['decided: checked extraction, guarded sinks, loop progress, argv bounds, exceptions as the only error channel',
                         'not decided: absence of crashes for ALL byte strings (a fuzzing statement); allocation behaviour inside libstdc++']
+    _bounds(rep, prog)
     return rep
 
 
@@ -189,3 +193,53 @@ def _every_cycle_hits(F, body, head, marks):
         seen.add(i)
         st.extend(s for s in F.g.nodes[i].succ if s in body)
     return True
+
+
+def _is(e, *shape):
+    return isinstance(e, tuple) and e[:len(shape)] == shape
+
+
+# ----------------------------------------------------------------------------------------------- BOUNDS
+def _bounds(rep, prog):
+    fn = prog.fn('bxdecay0::dbd_gA::_load_tabulated_cdf_opt_')
+    F = cppflow.Flow(fn)
+    g = F.g
+    guards = F.throw_guards()
+
+    def gtxt(b):
+        return ir.fmt(b.stmt[1])
+    # energies: nsamples push_backs in a counted loop
+    pushes = [n for n, name, a in F.call_nodes(lambda s: s.endswith('push_back')) if 'energies' in ir.fmt_stmt(n.stmt)]
+    oke = False
+    if len(pushes) == 1:
+        hdr = [b for b in F.nodes(kind='branch') if F.dominates(g.nodes[b.succ[0]], pushes[0]) and _is(b.stmt[1], 'op', '<=') and
+               b.stmt[1][2][0] == 'var' and 'nsamples' in ir.fmt(b.stmt[1][3]) and b.id in F.reach(pushes[0].id)]
+        clr = [n for n, name, a in F.call_nodes(lambda s: s.endswith('::clear')) if 'energies' in ir.fmt_stmt(n.stmt)]
+        oke = len(hdr) == 1
+    rep.add('BOUNDS', 'energies.size', where(fn, pushes[0].line if pushes else None), 'energies receives one entry per i in [0, nsamples)', oke)
+    # nsamples >= 2
+    ns = [b for b, arm in guards if 'nsamples' in gtxt(b) and '<' in gtxt(b) and 'e2_cdf_count' not in gtxt(b) and 'size' not in gtxt(b)]
+    rep.add('BOUNDS', 'nsamples>=2', where(fn, ns[0].line if ns else None), 'fewer than 2 samples is refused (the grid step divides by nsamples - 1)', len(ns) >= 1)
+    # e1_cprobs.size() == nsamples
+    load1 = [n for n, name, a in F.call_nodes(lambda s: s == 'load_optimized_cdf_array') if 'e1_cprobs' in ir.fmt_stmt(n.stmt)]
+    g1 = [b for b, arm in guards if 'e1_cprobs' in gtxt(b) and 'size' in gtxt(b) and 'nsamples' in gtxt(b)]
+    ok1 = len(load1) == 1 and any(F.dominates(load1[0], b) for b in g1)
+    rep.add('BOUNDS', 'e1_cprobs.size', where(fn, load1[0].line if load1 else None), 'after decoding the E1 line, e1_cprobs.size() is compared with nsamples and a '
+            'mismatch raises (the sampler subscripts energies[] and e2_cprobs[] with an E1 index)', ok1)
+    # row size
+    load2 = [n for n, name, a in F.call_nodes(lambda s: s == 'load_optimized_cdf_array') if 'e1_cprobs' not in ir.fmt_stmt(n.stmt)]
+    g2 = [b for b, arm in guards if 'size' in gtxt(b) and ('e2_expected_samples' in gtxt(b) or 'e2_cdf_count' in gtxt(b)) and 'e1_cprobs' not in gtxt(b)]
+    ok2 = len(load2) == 1 and any(F.dominates(load2[0], b) for b in g2)
+    rep.add('BOUNDS', 'row.size', where(fn, load2[0].line if load2 else None), 'row k must have exactly nsamples - k values, else an error is raised', ok2)
+    # number of rows: a throw guard on the row count that is outside the line loop (reached after it)
+    loop_heads = [b for b in F.nodes(kind='branch') if b.id in F.reach(b.succ[0]) and load2 and load2[0].id in F.reach(b.succ[0])
+                  and F.dominates(b, load2[0])]
+    g3 = []
+    for b, arm in guards:
+        t = gtxt(b)
+        if ('e2_cdf_count' in t or ('e2_cprobs' in t and 'size' in t)) and 'nsamples' in t and load2 and load2[0].id not in F.reach(b.id):
+            g3.append(b)
+    rets = [n for n in g.nodes if n.kind == 'return']
+    ok3 = bool(g3) and all(any(F.dominates(b, r) for b in g3) for r in rets)
+    rep.add('BOUNDS', 'rows.count', where(fn, rets[0].line if rets else None), 'before returning, the number of decoded E2 rows is compared with nsamples and a '
+            'shortfall raises (the sampler subscripts e2_cprobs[] with any E1 index)', ok3)
